@@ -1,0 +1,127 @@
+//go:build verif
+
+// Contracts for package block, read by /verif/kvc (contract-based deductive verification).
+// Comment-only; excluded from every build without the `verif` tag.
+package block
+
+// ---- C11 (a): decoding ARBITRARY block bytes never panics.  The only facts assumed about the bytes are the ones NewReader
+// establishes (IterOK); every index, slice and make obligation of the decoders is discharged for all byte values.
+//@ predicate IterOK(it *Iterator) = it != nil && it.reader != nil && it.dataEnd <= len(it.reader.data)
+//@ func NewReader
+//@   safety[C11]
+//@   ensures[C11] err != nil ==> result0 == nil
+//@   ensures[C11] err == nil ==> result0 != nil && fresh(result0) && result0.data == data && len(result0.restartPoints) == result0.numRestarts && len(data) >= 12 + 4*len(result0.restartPoints)
+//@   ensures[C11] err == nil ==> xxhash(bstr(data[:len(data)-8])) == result0.checksum
+//@ func (*Reader).Iterator
+//@   safety[C11]
+//@   requires r != nil && len(r.data) >= 12 + 4*len(r.restartPoints) && len(r.data) < 4294967296
+//@   ensures[C11] fresh(result) && IterOK(result) && result.reader == r && !result.initialized && result.currentKey == nil
+//@ func validateDeltaEncoding
+//@   safety[C11]
+//@   modifies nothing
+//@   ensures[C11] result == nil ==> currentKey != nil && sharedLen <= len(currentKey) && unsharedLen <= len(data) && sharedLen + unsharedLen <= 65535
+// (decodeCurrent / decodeNext: contracts below - their no-panic obligations are proved for arbitrary data bytes, their
+// model-level postconditions are assumed)
+
+// ---- C11 (b): navigation.  Ghost model of a well-formed block: n entries (keys strictly ascending, non-empty), entry i
+// starts at byte pos[i] (pos[n] = end of the entry area), restart point j is entry 16*j.  The two byte-level decoders
+// are tied to the model by ASSUMED contracts (trusted: their byte-level refinement of the builder's format is not
+// proved); everything above them - SeekToFirst, Next, Seek (binary search over restart points + scan), SeekToLast,
+// Valid/Key/Value/IsTombstone/SequenceNumber - is verified against those contracts for all blocks and targets.
+//@ ghost field (*Reader) n int
+//@ ghost field (*Reader) keys map[int]bstr
+//@ ghost field (*Reader) vals map[int]bstr
+//@ ghost field (*Reader) vnil map[int]bool
+//@ ghost field (*Reader) seqs map[int]uint64
+//@ ghost field (*Reader) pos map[int]int
+// gi: index of the entry that starts at currentPos (the next one to decode)
+//@ ghost field (*Iterator) gi int
+//@ predicate BlockModel(r *Reader) = r != nil && r.n >= 0 && r.n <= 16*len(r.restartPoints) && 16*len(r.restartPoints) < r.n + 16 && (forall i int, j int :: 0 <= i && i < j && j < r.n ==> blt(r.keys[i], r.keys[j])) && (forall j int :: 0 <= j && j < len(r.restartPoints) ==> r.restartPoints[j] == r.pos[16*j]) && (forall i int :: 0 <= i && i < r.n ==> blen(r.keys[i]) > 0) && r.pos[0] == 0
+//@ predicate Cursor(it *Iterator) = IterOK(it) && BlockModel(it.reader) && 0 <= it.gi && it.gi <= it.reader.n && it.currentPos == it.reader.pos[it.gi]
+//@ predicate At(it *Iterator, i int) = 0 <= i && i < it.reader.n && it.currentKey != nil && bstr(it.currentKey) == it.reader.keys[i] && (it.currentVal == nil) == it.reader.vnil[i] && bstr(it.currentVal) == it.reader.vals[i] && it.currentSeqNum == it.reader.seqs[i] && it.gi == i + 1
+
+//@ func (*Iterator).decodeNext
+//@   safety[C11]
+//@   requires Cursor(it) && (it.gi < it.reader.n && it.gi % 16 != 0 ==> it.currentKey != nil && bstr(it.currentKey) == it.reader.keys[it.gi - 1])
+//@   modifies it.currentPos, it.currentSeqNum, it.restartIdx, it.gi
+//@   ensures[A] old(it.gi) >= it.reader.n ==> !result2 && it.gi == old(it.gi) && it.currentPos == old(it.currentPos) && it.currentSeqNum == old(it.currentSeqNum)
+//@   ensures[A] old(it.gi) < it.reader.n ==> result2 && result0 != nil && fresh(result0) && bstr(result0) == it.reader.keys[old(it.gi)] && (result1 == nil) == it.reader.vnil[old(it.gi)] && bstr(result1) == it.reader.vals[old(it.gi)] && it.currentSeqNum == it.reader.seqs[old(it.gi)] && it.gi == old(it.gi) + 1 && it.currentPos == it.reader.pos[it.gi]
+//@   ghost exit: it.gi = ite(it.gi < it.reader.n, it.gi + 1, it.gi)
+//@ func (*Iterator).decodeCurrent
+//@   safety[C11]
+//@   requires Cursor(it) && (it.gi % 16 == 0 || it.gi == it.reader.n)
+//@   modifies it.currentPos, it.currentSeqNum, it.currentKey, it.currentVal, it.gi
+//@   ensures[A] old(it.gi) >= it.reader.n ==> !result2 && it.gi == old(it.gi) && it.currentPos == old(it.currentPos) && it.currentSeqNum == old(it.currentSeqNum) && it.currentKey == old(it.currentKey) && it.currentVal == old(it.currentVal)
+//@   ensures[A] old(it.gi) < it.reader.n ==> result2 && At(it, old(it.gi)) && it.currentKey == result0 && it.currentVal == result1 && it.currentPos == it.reader.pos[it.gi]
+//@   ghost exit: it.gi = ite(it.gi < it.reader.n, it.gi + 1, it.gi)
+
+// The cursor protocol.  Positioned: on entry i (At), or past the end (currentKey == nil).
+//@ func (*Iterator).SeekToFirst
+//@   safety[C11]
+//@   requires IterOK(it) && BlockModel(it.reader)
+//@   ghost before call (*Iterator).decodeCurrent#1: it.gi = 0
+//@   ensures[C11] it.initialized
+//@   ensures[C11] it.reader.n > 0 ==> Cursor(it) && At(it, 0)
+//@   ensures[C11] it.reader.n > 0 ==> len(it.currentKey) > 0
+//@   ensures[C11] it.reader.n == 0 ==> it.currentKey == nil
+//@ func (*Iterator).Valid
+//@   modifies nothing
+//@   ensures[C11] result == (it.currentKey != nil && len(it.currentKey) > 0)
+//@ func (*Iterator).Next
+//@   safety[C11]
+//@   requires IterOK(it) && BlockModel(it.reader) && (it.initialized && it.currentKey != nil ==> Cursor(it) && At(it, it.gi - 1))
+//@   ensures[C11] it.initialized && (it.currentKey != nil ==> Cursor(it))
+//@   ensures[C11] old(it.initialized) && old(it.currentKey) != nil && old(it.gi) < it.reader.n ==> result && At(it, old(it.gi))
+//@   ensures[C11] old(it.initialized) && (old(it.currentKey) == nil || old(it.gi) >= it.reader.n) ==> !result && it.currentKey == nil
+//@   ensures[C11] !old(it.initialized) && it.reader.n > 0 ==> At(it, 0)
+//@   ensures[C11] !old(it.initialized) && it.reader.n > 0 ==> result
+//@   ensures[C11] !old(it.initialized) && it.reader.n == 0 ==> it.currentKey == nil && !result
+
+// Seek(t): positioned on the FIRST entry whose key is >= t (every earlier key is smaller), or past the end if every key
+// is smaller.  Binary search invariant: restart key `left` is <= t (if left > 0) and restart key right+1 is > t.
+//@ func (*Iterator).Seek
+//@   safety[C11]
+//@   requires IterOK(it) && BlockModel(it.reader)
+//@   ghost before call (*Iterator).decodeCurrent#2: it.gi = 16 * mid
+//@   ghost before call (*Iterator).decodeCurrent#1: it.gi = 16 * left
+//@   ensures[C11] result ==> Cursor(it) && At(it, it.gi - 1) && !blt(it.reader.keys[it.gi - 1], bstr(target))
+//@   ensures[C11] result ==> (forall i int :: 0 <= i && i < it.gi - 1 ==> blt(it.reader.keys[i], bstr(target)))
+//@   ensures[C11] !result ==> (len(it.reader.restartPoints) > 0 ==> it.currentKey == nil) && (forall i int :: 0 <= i && i < it.reader.n ==> blt(it.reader.keys[i], bstr(target)))
+//@ loop (*Iterator).Seek#1
+//@   invariant[C11] 0 <= left && left <= right && right <= len(it.reader.restartPoints) - 1
+//@   invariant[C11] left > 0 ==> !blt(bstr(target), it.reader.keys[16 * left])
+//@   invariant[C11] right < len(it.reader.restartPoints) - 1 ==> blt(bstr(target), it.reader.keys[16 * (right + 1)])
+//@ loop (*Iterator).Seek#2
+//@   invariant[C11] Cursor(it) && At(it, it.gi - 1) && (forall i int :: 0 <= i && i < it.gi ==> blt(it.reader.keys[i], bstr(target)))
+
+//@ func (*Iterator).SeekToLast
+//@   safety[C11]
+//@   requires IterOK(it) && BlockModel(it.reader)
+//@   ghost before call (*Iterator).decodeCurrent#1: it.gi = 16 * (len(it.reader.restartPoints) - 1)
+//@   ensures[C11] it.initialized
+//@   ensures[C11] it.reader.n > 0 ==> Cursor(it) && At(it, it.reader.n - 1)
+//@   ensures[C11] it.reader.n == 0 ==> it.currentKey == nil
+//@ loop (*Iterator).SeekToLast#1
+//@   invariant[C11] Cursor(it) && At(it, it.gi - 1)
+//@ func (*Iterator).Key
+//@   modifies nothing
+//@   ensures[C11] result == it.currentKey
+//@ func (*Iterator).Value
+//@   modifies nothing
+//@   ensures[C11] result == it.currentVal
+//@ func (*Iterator).IsTombstone
+//@   modifies nothing
+//@   ensures[C11] result == (it.currentKey != nil && len(it.currentKey) > 0 && it.currentVal == nil)
+//@ func (*Iterator).SequenceNumber
+//@   modifies nothing
+//@   ensures[C11] it.currentKey != nil && len(it.currentKey) > 0 ==> result == it.currentSeqNum
+
+// ---- C11 (c): the builder keeps what it was given: keys strictly ascending, a fresh copy of key and value per entry, a
+// nil value (deletion marker) stays nil and a non-nil value - also an empty one - stays non-nil.
+//@ func (*Builder).AddWithSequence
+//@   safety[C11]
+//@   requires b != nil
+//@   ensures[C11] (err != nil) == (old(len(b.entries)) > 0 && !blt(old(bstr(b.lastKey)), bstr(key)))
+//@   ensures[C11] err != nil ==> len(b.entries) == old(len(b.entries))
+//@   ensures[C11] err == nil ==> len(b.entries) == old(len(b.entries)) + 1 && bstr(b.entries[len(b.entries)-1].Key) == bstr(key) && len(b.entries[len(b.entries)-1].Key) == len(key) && b.entries[len(b.entries)-1].SequenceNum == seqNum && bstr(b.lastKey) == bstr(key)
+//@   ensures[C11] err == nil ==> (b.entries[len(b.entries)-1].Value == nil) == (value == nil) && bstr(b.entries[len(b.entries)-1].Value) == bstr(value) && len(b.entries[len(b.entries)-1].Value) == len(value)
